@@ -62,6 +62,8 @@ pub fn run_c02(prog: &Prog, ops: &[Op]) -> Result<RunInfo, Fail> {
                 let b = asserted.new_el(*sort);
                 ties[*sort].push((a, b));
             }
+            // member-type programs are only simulated by C17
+            Op::NewMember { .. } => continue,
             Op::NewEnum { ctor: rel, args } | Op::Define { rel, args } => {
                 let r = &p.rels[*rel];
                 if !r.is_func() {
@@ -977,8 +979,19 @@ pub fn worker(args: &WorkerArgs, progs: &[Prog], stats: &mut ShardStats) {
         stats.declare_probe("inconclusive_runs");
     }
     if wants_model {
+        // the known findings of C17 come in many classes (base class x structure timing x index
+        // feature); they must not exhaust the cap and end a shard before it met anything else
+        stats.violation_cap = 64;
         stats.declare_fault("late_structure");
         stats.declare_fault("early_structure");
+        stats.declare_fault("member_type_history");
+        stats.declare_fault("morphism_application_asserted");
+        stats.declare_fault("object_equate");
+        if prop == "C17" {
+            stats.declare_probe("member_type_runs_judged_in_full");
+            stats.declare_probe("plain_model_runs_judged_in_full");
+            stats.declare_probe("member_rows_derived_or_inherited");
+        }
         if prop == "C18" {
             stats.declare_probe("toposort_calls_with_morphisms");
         }
@@ -1060,6 +1073,15 @@ pub fn worker(args: &WorkerArgs, progs: &[Prog], stats: &mut ShardStats) {
                 } else {
                     stats.fault("early_structure");
                 }
+                if let Some(mi) = &prog.model {
+                    if !mi.member_sorts.is_empty() {
+                        stats.fault("member_type_history");
+                        let apps: Vec<usize> = mi.member_sorts.iter().map(|(_, _, a)| *a).collect();
+                        stats.fault_n("morphism_application_asserted", ops.iter().filter(|o| matches!(o, Op::Insert { rel, .. } if apps.contains(rel))).count() as u64);
+                        stats.fault_n("member_element_equate", ops.iter().filter(|o| matches!(o, Op::Equate { sort, .. } if mi.member_sorts.iter().any(|(s, _, _)| s == sort))).count() as u64);
+                    }
+                    stats.fault_n("object_equate", ops.iter().filter(|o| matches!(o, Op::Equate { sort, .. } if *sort == mi.model_sort)).count() as u64);
+                }
                 vec![crate::c17::case(prop, prog, &ops)]
             }
             other => {
@@ -1090,6 +1112,17 @@ pub fn worker(args: &WorkerArgs, progs: &[Prog], stats: &mut ShardStats) {
                     stats.count("checks", info.checks);
                     if wants_model {
                         stats.probe_n("toposort_calls_with_morphisms", info.enum_elements_checked);
+                    }
+                    if prop == "C17" {
+                        let member = prog.model.as_ref().map(|mi| !mi.member_sorts.is_empty()).unwrap_or(false);
+                        if info.c17_masked {
+                            stats.probe(if member { "member_type_runs_overlapping_a_known_finding" } else { "plain_model_runs_overlapping_a_known_finding" });
+                        } else {
+                            stats.probe(if member { "member_type_runs_judged_in_full" } else { "plain_model_runs_judged_in_full" });
+                        }
+                        if member {
+                            stats.probe_n("member_rows_derived_or_inherited", info.c17_mapped_rows);
+                        }
                     }
                     let nontrivial = match prop {
                         "C02" => info.max_polls_in_close >= 3,
